@@ -66,10 +66,13 @@ def run(chk, F, tier):
         tty = F.types[new["locals"][0]["ty"]]
         for rep, elem, want_variant in (("all<=0.1", Fl.rng("0.01", False, "0.05", False), "FromBeta"), ("all>0.1", Fl.rng("0.5", False, 2, False), "FromGamma"),
                                          ("=0.1", Fl.point(0.1), "FromBeta")):
-            for n in (2, 3, 6):
+            for n in (2, 3, 6, 17, 64):
+                if n > 17 and rep == "=0.1":
+                    continue        # exact multiples of 0.1 make the suffix sums expensive; the boundary itself is covered up to n = 17
                 key = "f%d %s n=%d" % (bits, rep, n)
                 ip = Interp(F, ax)
                 ip.partition = True
+                ip.max_partitions = n + 8
                 rv, st = ip.run_root(new, [Rf(None, Vc(elem, usize(n)), False)])
                 if not (isinstance(rv, En) and set(rv.variants) == {0}):
                     chk.violation("length", key + ":new", "Dirichlet::new on a valid vector (%s) returns %s" % (key, rules_c04.outcome_names(F, rv)))
@@ -89,8 +92,12 @@ def run(chk, F, tier):
                 if not (isinstance(ln, In) and ln.is_point() and ln.lo == n):
                     chk.violation("length", key + ":sample_len", "sample_len() = %r for an alpha of length %d (%s)" % (ln, n, want_variant))
                     continue
+                if n > 17:
+                    chk.ok("length", key + ": %s, sample_len = %d (sample() itself is run for n <= 17)" % (want_variant, n))
+                    continue
                 ip3 = Interp(F, ax)
                 ip3.partition = True
+                ip3.max_partitions = n + 8
                 out, st3 = ip3.run_root(samp, [Rf(None, d, False), Rf(None, Top(), True)])
                 bad = [e for e in ip3.events.values() if (e.kind == "panic:call" and "assert_failed" in str(e.detail)) or
                        (e.kind in ("panic:assert:BoundsCheck", "panic:index") and "sample_to_slice" in str(e.inst))]
@@ -102,7 +109,9 @@ def run(chk, F, tier):
                                   where=span_str(bad[0].span))
                 else:
                     chk.ok("length", key + ": %s, sample_len = %d, sample() has %d components, length assertion discharged" % (want_variant, n, n))
-    chk.floor("length-algebra cases", nlen, 18)
+    chk.floor("length-algebra cases", nlen, 28)
+    normaliser(chk, F, ax)
+    write_all(chk, F)
     # R4 call structure
     for bits in (32, 64):
         samp = find(F, "<multi::dirichlet::Dirichlet<F> as rand::distr::Distribution<alloc::vec::Vec<F>>>::sample", bits)
@@ -181,3 +190,149 @@ def run(chk, F, tier):
                 else:
                     chk.violation("suffix-sum", key + ":seed", "the tail sums are seeded with %s; the last tail sum is alpha[n - 1]" % fmt(fv), where=span_str(t.get("span")))
     chk.floor("suffix-sum rule instances", nidx, 4)
+
+
+# ------------------------------------------------------------------------------------------------ R5: the normaliser covers every component
+def ones_exact(F, ax, inst, lens=None):
+    """A function `fn(&[T]) -> T` that claims to add up a slice: on the all-ones vector of exact length n it must return exactly n
+    (ones are summed without rounding in any order, so every correct summation algorithm passes).  Returns (checked, failure or None)."""
+    et = None
+    t0 = F.types[inst["locals"][0]["ty"]]
+    if t0["k"] not in ("float", "int"):
+        return 0, "return type %s is not a scalar" % t0["s"]
+    lens = lens or (list(range(0, 70)) + [100, 127, 128, 129, 255, 256, 257, 300, 1000])
+    n_ok = 0
+    for n in lens:
+        if t0["k"] == "int":
+            mx = In.of_type(t0["bits"], t0["signed"]).hi
+            if n > mx:
+                continue
+            one = In(1, 1, t0["bits"], t0["signed"])
+        else:
+            one = Fl.point(1)
+        ip = Interp(F, ax)
+        ip.partition = True
+        rv, st = ip.run_root(inst, [Rf(None, Vc(one, usize(n)), False)])
+        rv = ip.materialize(rv) if st is not None else None
+        good = (isinstance(rv, Fl) and rv == Fl.point(n)) or (isinstance(rv, In) and rv.lo == rv.hi == n)
+        if not good:
+            # definitely wrong (the abstract result excludes n) or merely not evaluated precisely?
+            contains = rv is None or not isinstance(rv, (Fl, In)) or (isinstance(rv, Fl) and rv.contains(n)) or (isinstance(rv, In) and rv.lo <= n <= rv.hi)
+            msg = "on %d ones it returns %r, not %d" % (n, rv, n)
+            return n_ok, (("imprecise: " + msg) if contains else msg)
+        n_ok += 1
+    return n_ok, None
+
+
+def normaliser(chk, F, ax):
+    """DirichletFromGamma::sample_to_slice divides every slot by `sum`.  Accepted shapes of `sum`: (a) accumulated inside the loop that
+    writes the slots, from the slot just written; (b) a crate-local `fn(&[F]) -> F` applied to the whole output slice that passes
+    the ones test.  Anything else is reported as not recognised."""
+    from symterm import root_local
+    nn = 0
+    for bits in (32, 64):
+        inst = find(F, "<multi::dirichlet::DirichletFromGamma<F> as multi::MultiDistribution<F>>::sample_to_slice", bits)
+        key = "DirichletFromGamma::sample_to_slice:f%d" % bits
+        if not inst:
+            chk.violation("normaliser", key + ":anchor", "instance not found")
+            continue
+        T = Terms(F, inst)
+        fi = FnInfo(F, inst)
+        # the divisor: operand b of the Div whose numerator is the constant one (invacc = 1 / sum), or of a slot division
+        divs = [s_["rv"] for b in inst["blocks"] for s_ in b["stmts"] if s_["k"] == "assign" and s_["rv"]["k"] == "binop" and s_["rv"]["op"] == "Div"]
+        calls_div = [b["term"] for b in inst["blocks"] if b["term"] and b["term"]["k"] == "call" and (b["term"]["func"].get("fn", {}).get("trait") or "").endswith("ops::Div")]
+        cands = [rv["b"] for rv in divs] + [t["args"][1] for t in calls_div if len(t["args"]) == 2]
+        if not cands:
+            chk.violation("normaliser", key + ":anchor", "no division by the normaliser found")
+            continue
+        nn += 1
+        verdicts = []
+        for op in cands:
+            rl = root_local(T, op)
+            if rl is None:
+                verdicts.append(("?", "divisor is not a plain local: %s" % fmt(T.of_operand(op))))
+                continue
+            defs = T.body.defs.get(rl, [])
+            # (a) in-loop accumulation: a definition of the divisor inside a loop that also writes through the output iterator, of the
+            # form sum = Add(sum, <value read back from the slot / value written to the slot>)
+            inloop = [d for d in defs if any(d[0] in body for _, body, _ in fi.loops)]
+            if inloop:
+                def is_add_of(d, depth=0):
+                    """Is this definition `rl + something` (an Add call or binop whose left operand is the accumulator itself)?"""
+                    if depth > 4:
+                        return False
+                    if d[2] == "call":
+                        fn = d[3]["func"].get("fn", {})
+                        return (fn.get("trait") or "").endswith("ops::Add") and root_local(T, d[3]["args"][0]) == rl
+                    rv_ = d[3]["rv"]
+                    if rv_["k"] == "binop" and rv_["op"] == "Add":
+                        return root_local(T, rv_["a"]) == rl
+                    if rv_["k"] == "use" and rv_["op"].get("k") in ("copy", "move") and not rv_["op"]["p"]:
+                        d2 = T.body.single_def(rv_["op"]["l"])
+                        return d2 is not None and is_add_of(d2, depth + 1)
+                    return False
+                ok_a = all(is_add_of(d) for d in inloop)
+                verdicts.append(("a" if ok_a else "?", "accumulated in the writing loop" if ok_a else "defined in a loop but not as sum = sum + slot"))
+                continue
+            # (b) a helper applied to the output slice
+            d1 = T.body.single_def(rl)
+            if d1 is not None and d1[2] == "call":
+                fn = d1[3]["func"].get("fn", {})
+                callee = F.by_key.get(fn.get("key") or "")
+                if callee is not None and callee.get("full") and callee.get("local") and callee["arg_count"] == 1:
+                    arg_root = root_local(T, d1[3]["args"][0])
+                    if arg_root != 3:
+                        verdicts.append(("?", "helper %s is applied to something other than the whole output slice" % callee["path"]))
+                        continue
+                    n_ok, fail = ones_exact(F, ax, callee)
+                    if fail and fail.startswith("imprecise"):
+                        chk.unproved_note("normaliser", key + ":helper", "summation helper %s could not be evaluated exactly (%s): not decided" % (callee["path"], fail))
+                        verdicts.append(("b", "helper %s (not evaluated exactly)" % callee["path"]))
+                    elif fail:
+                        verdicts.append(("bad", "the summation helper %s does not add up every element: %s" % (callee["path"], fail)))
+                    else:
+                        verdicts.append(("b", "helper %s passes the ones test for %d lengths" % (callee["path"], n_ok)))
+                    continue
+            verdicts.append(("?", "normaliser %s is neither accumulated in the writing loop nor a checked helper over the output slice" % fmt(T.of_operand(op))))
+        kinds = {v[0] for v in verdicts}
+        if kinds <= {"a", "b"}:
+            chk.ok("normaliser", key + ": " + "; ".join(sorted({v[1] for v in verdicts})), nontrivial=True)
+        else:
+            bad = next(v for v in verdicts if v[0] not in ("a", "b"))
+            chk.violation("normaliser", key, "the components are divided by a normaliser that cannot be shown to be the sum of all components: %s" % bad[1], where=span_str(inst.get("span")))
+    chk.floor("normaliser sites", nn, 2)
+
+
+# ------------------------------------------------------------------------------------------------ R6: every slot is written
+def write_all(chk, F):
+    """In every MultiDistribution::sample_to_slice of the crate, a loop that walks `output.iter_mut()` (possibly zipped) may be left
+    only when its iterator is exhausted: any other exit (break, return) leaves slots of the caller's buffer unwritten."""
+    nw = 0
+    for inst in F.instances:
+        if not (inst.get("full") and inst.get("local") and inst["path"].endswith("::sample_to_slice") and (inst.get("impl_trait") or "").endswith("MultiDistribution")):
+            continue
+        fi = FnInfo(F, inst)
+        for li, (h, body, backs) in enumerate(fi.loops):
+            nexts = [bi for bi in body if inst["blocks"][bi]["term"] and inst["blocks"][bi]["term"]["k"] == "call" and
+                     inst["blocks"][bi]["term"]["func"].get("fn", {}).get("method") == "next"]
+            if not nexts:
+                continue
+            exits = fi.loop_exits(body)
+            # the exhaustion exit: the switch on the discriminant of the Option returned by `next`
+            okx = []
+            for (src, dst) in exits:
+                t = inst["blocks"][src]["term"]
+                if t["k"] == "switch":
+                    for s_ in inst["blocks"][src]["stmts"]:
+                        if s_["k"] == "assign" and s_["rv"]["k"] == "discriminant":
+                            okx.append((src, dst))
+            other = [e for e in exits if e not in okx]
+            nw += 1
+            key = "%s loop#%d" % (inst["key"], li)
+            if other:
+                chk.violation("write-all", "%s|loop#%d" % (inst["path"], li), "%s: the loop over the output buffer can be left through an exit other than iterator "
+                              "exhaustion (block %d -> %d): the remaining slots keep the caller's old contents" % (inst["path"], other[0][0], other[0][1]),
+                              where=span_str(inst["blocks"][other[0][0]]["term"].get("span")))
+            else:
+                chk.ok("write-all", key + ": left only on iterator exhaustion", nontrivial=(nw <= 4))
+    chk.floor("output-walking loops in sample_to_slice impls", nw, 6)
